@@ -562,4 +562,244 @@ theorem invB_step : ∀ s, InvB s → InvB (step s) := by
 theorem invB_init (tbl : List Body) (pref : List Nat) (main : List Act) : InvB (init tbl pref main) := by
   simp [InvB, init, notBeforeDeadline]
 
+/-! ### (D) removal -/
+
+def tcbFresh (n : Nat) : Item → Prop
+  | .tcb t _ => t.h < n
+  | _ => True
+
+/-- a removed handle, if still in the batch, is marked cancelled -/
+def tcbDead (h : Nat) : Item → Prop
+  | .tcb t c => t.h = h → c = true
+  | _ => True
+
+def InvD (s : Loop) : Prop :=
+  ((∀ t ∈ s.timers, t.h < s.nextH) ∧ (∀ it ∈ s.batch, tcbFresh s.nextH it) ∧ (∀ v ∈ s.vars, v.2 < s.nextH) ∧
+    (∀ h ∈ s.removed, h < s.nextH) ∧ (∀ it ∈ s.next, noTcb it)) ∧
+  (∀ h ∈ s.removed, (∀ t ∈ s.timers, t.h ≠ h) ∧ (∀ it ∈ s.batch, tcbDead h it)) ∧
+  (∀ e ∈ s.log, ∀ h, removedOf e = some h → h ∈ s.removed) ∧
+  removedNeverRuns s.log
+
+theorem rnr_append (l : List Ev) (e : Ev) (h : removedNeverRuns l) (he : ∀ a ∈ l, notRanAfter a e = true) :
+    removedNeverRuns (l ++ [e]) := by
+  unfold removedNeverRuns at *
+  rw [List.pairwise_append]
+  refine ⟨h, by simp, ?_⟩
+  intro a ha b hb
+  simp at hb; subst hb; exact he a ha
+
+/-- an event that is not a `ranT` can be appended freely -/
+theorem notRanAfter_of_not_ran (a e : Ev) (he : ∀ h, isRanOf h e = false) : notRanAfter a e = true := by
+  unfold notRanAfter
+  cases removedOf a <;> simp [he]
+
+theorem removedOf_mem_append (l : List Ev) (e : Ev) (R : List Nat)
+    (h : ∀ x ∈ l, ∀ h, removedOf x = some h → h ∈ R) (he : removedOf e = none) :
+    ∀ x ∈ l ++ [e], ∀ h, removedOf x = some h → h ∈ R := by
+  intro x hx hh hr
+  rcases List.mem_append.mp hx with hx | hx
+  · exact h x hx hh hr
+  · simp at hx; subst hx; rw [he] at hr; cases hr
+
+/-- appending a non-`ranT`, non-`removed` event keeps the log part of the invariant -/
+theorem invD_emit (s : Loop) (e : Ev) (h : InvD s) (h1 : ∀ h, isRanOf h e = false) (h2 : removedOf e = none) :
+    InvD (emit s e) := by
+  obtain ⟨a, b, c, d⟩ := h
+  exact ⟨a, b, removedOf_mem_append _ _ _ c h2, rnr_append _ _ d (fun x _ => notRanAfter_of_not_ran x e h1)⟩
+
+theorem tcbDead_cancel (h h' : Nat) (it : Item) (hh : tcbDead h it) : tcbDead h (cancelItem h' it) := by
+  cases it with
+  | tcb t c => simp [cancelItem, tcbDead] at hh ⊢; intro e; simp [hh e]
+  | _ => simp [cancelItem, tcbDead]
+
+theorem tcbDead_cancel_self (h : Nat) (it : Item) : tcbDead h (cancelItem h it) := by
+  cases it with
+  | tcb t c => simp [cancelItem, tcbDead]; intro e; simp [e]
+  | _ => simp [cancelItem, tcbDead]
+
+theorem tcbFresh_cancel (n h : Nat) (it : Item) (hh : tcbFresh n it) : tcbFresh n (cancelItem h it) := by
+  cases it <;> simpa [cancelItem, tcbFresh] using hh
+
+theorem mem_lookup {α β} [BEq α] [LawfulBEq α] (l : List (α × β)) (a : α) (b : β) (h : l.lookup a = some b) :
+    (a, b) ∈ l := by
+  induction l with
+  | nil => simp at h
+  | cons x xs ih =>
+    obtain ⟨k, v⟩ := x
+    simp only [List.lookup_cons] at h
+    split at h
+    · next heq => simp at heq; cases h; simp [heq]
+    · exact List.mem_cons_of_mem _ (ih h)
+
+theorem invD_step : ∀ s, InvD s → InvD (step s) := by
+  apply step_cases
+  · intro s c a rest _ _ h
+    cases a with
+    | addCb k =>
+      have h' : InvD { s with cur := some { c with acts := rest }, next := s.next ++ [.cb s.nextS k s.iter], nextS := s.nextS + 1 } := by
+        obtain ⟨⟨a1, a2, a3, a4, a5⟩, b, c', d⟩ := h
+        exact ⟨⟨a1, a2, a3, a4, noTcb_snoc _ _ a5 trivial⟩, b, c', d⟩
+      exact invD_emit _ _ h' (fun _ => rfl) rfl
+    | addTmo f arg k name =>
+      obtain ⟨⟨a1, a2, a3, a4, a5⟩, b, c', d⟩ := h
+      refine ⟨⟨?_, ?_, ?_, ?_, a5⟩, ?_, removedOf_mem_append _ _ _ c' rfl,
+        rnr_append _ _ d (fun x _ => notRanAfter_of_not_ran x _ (fun _ => rfl))⟩
+      · intro t ht
+        simp [doAct] at ht ⊢
+        rcases ht with ht | ht
+        · have := a1 t ht; omega
+        · subst ht; simp
+      · intro it hit
+        have := a2 it hit
+        cases it <;> simp [tcbFresh, doAct] at this ⊢; omega
+      · intro v hv
+        simp [doAct] at hv ⊢
+        rcases hv with hv | hv
+        · subst hv; simp
+        · have := a3 v hv; omega
+      · intro h hh; have := a4 h hh; simp [doAct]; omega
+      · intro h hh
+        obtain ⟨b1, b2⟩ := b h hh
+        refine ⟨?_, b2⟩
+        intro t ht
+        simp [doAct] at ht
+        rcases ht with ht | ht
+        · exact b1 t ht
+        · subst ht; have := a4 h hh; simp; omega
+    | rmTmo name =>
+      simp only [doAct]
+      split
+      · exact h
+      · next h0 hlk =>
+        split
+        · obtain ⟨⟨a1, a2, a3, a4, a5⟩, b, c', d⟩ := h
+          have hfresh : h0 < s.nextH := a3 (name, h0) (mem_lookup _ _ _ hlk)
+          refine ⟨⟨?_, ?_, a3, ?_, a5⟩, ?_, ?_, ?_⟩
+          · intro t ht; simp at ht; exact a1 t ht.1
+          · intro it hit
+            simp at hit
+            obtain ⟨it', hit', rfl⟩ := hit
+            exact tcbFresh_cancel _ _ _ (a2 it' hit')
+          · intro h hh
+            simp at hh
+            rcases hh with hh | hh
+            · subst hh; exact hfresh
+            · exact a4 h hh
+          · intro h hh
+            simp at hh
+            rcases hh with hh | hh
+            · subst hh
+              refine ⟨?_, ?_⟩
+              · intro t ht; simp at ht; exact ht.2
+              · intro it hit
+                simp at hit
+                obtain ⟨it', _, rfl⟩ := hit
+                exact tcbDead_cancel_self _ _
+            · obtain ⟨b1, b2⟩ := b h hh
+              refine ⟨?_, ?_⟩
+              · intro t ht; simp at ht; exact b1 t ht.1
+              · intro it hit
+                simp at hit
+                obtain ⟨it', hit', rfl⟩ := hit
+                exact tcbDead_cancel _ _ _ (b2 it' hit')
+          · intro x hx hh hr
+            simp at hx
+            rcases hx with hx | hx
+            · simp; right; exact c' x hx hh hr
+            · subst hx; simp at hr; subst hr; simp
+          · simp only [emit_log]
+            exact rnr_append _ _ d (fun x _ => notRanAfter_of_not_ran x _ (fun _ => rfl))
+        · exact h
+    | busy d => exact h
+    | addFut fid k =>
+      simp only [doAct]
+      split
+      · obtain ⟨⟨a1, a2, a3, a4, a5⟩, b, c', d⟩ := h
+        exact ⟨⟨a1, a2, a3, a4, noTcb_snoc _ _ a5 trivial⟩, b, c', d⟩
+      · exact h
+    | resolve fid ok =>
+      simp only [doAct]
+      split
+      · exact h
+      · obtain ⟨⟨a1, a2, a3, a4, a5⟩, b, c', d⟩ := h
+        refine ⟨⟨a1, a2, a3, a4, ?_⟩, b, c', d⟩
+        intro it hit
+        simp at hit
+        rcases hit with hit | ⟨_, _, _, _, rfl⟩
+        · exact a5 it hit
+        · trivial
+  · intro s c _ _ h
+    unfold finish
+    have h0 : InvD (emit { s with cur := none } (.fin c.who c.fin)) := invD_emit _ _ h (fun _ => rfl) rfl
+    cases hf : c.fin
+    · simpa [hf] using h0
+    · simp only [hf] at h0 ⊢
+      exact invD_emit _ _ h0 (fun _ => rfl) rfl
+    · simp only [hf] at h0 ⊢
+      obtain ⟨⟨a1, a2, a3, a4, a5⟩, b, c', d⟩ := h0
+      exact ⟨⟨a1, a2, a3, a4, noTcb_snoc _ _ a5 trivial⟩, b, c', d⟩
+    · simp only [hf] at h0 ⊢
+      obtain ⟨⟨a1, a2, a3, a4, a5⟩, b, c', d⟩ := h0
+      exact ⟨⟨a1, a2, a3, a4, noTcb_snoc _ _ a5 trivial⟩, b, c', d⟩
+    · simpa [hf] using h0
+  · intro s it rest _ hb h
+    have hpop : InvD { s with batch := rest } := by
+      obtain ⟨⟨a1, a2, a3, a4, a5⟩, b, c', d⟩ := h
+      refine ⟨⟨a1, fun x hx => a2 x (by simp [hb, hx]), a3, a4, a5⟩, ?_, c', d⟩
+      intro h hh
+      exact ⟨(b h hh).1, fun x hx => (b h hh).2 x (by simp [hb, hx])⟩
+    cases it with
+    | cb sid k enq => exact invD_emit _ _ hpop (fun _ => rfl) rfl
+    | tcb t c =>
+      simp only [startItem]
+      split
+      · exact hpop
+      · next hc =>
+        obtain ⟨a, b, c', d⟩ := hpop
+        refine ⟨a, b, removedOf_mem_append _ _ _ c' rfl, ?_⟩
+        simp only [startBody_log, emit_log]
+        apply rnr_append _ _ d
+        intro x hx
+        unfold notRanAfter
+        cases hr : removedOf x with
+        | none => rfl
+        | some h' =>
+          simp only [isRanOf, Bool.not_eq_true', beq_eq_false_iff_ne, ne_eq]
+          intro heq
+          have hmem := c' x hx h' hr
+          have := (h.2.1 h' hmem).2 (.tcb t c) (by simp [hb])
+          simp [tcbDead] at this
+          exact hc (this heq)
+    | fcb fid k added enq => exact invD_emit _ _ hpop (fun _ => rfl) rfl
+    | discard ok enq =>
+      cases ok
+      · exact invD_emit _ _ hpop (fun _ => rfl) rfl
+      · exact hpop
+  · intro s _ hb h
+    obtain ⟨⟨a1, a2, a3, a4, a5⟩, b, c', d⟩ := h
+    rw [newIteration_eq]
+    refine ⟨⟨?_, ?_, a3, a4, by simp⟩, ?_, c', d⟩
+    · intro t ht; simp at ht; exact a1 t ht.1
+    · intro it hit
+      simp at hit
+      rcases hit with hit | ⟨t, ht, rfl⟩
+      · have := a5 it hit
+        cases it <;> simp [tcbFresh, noTcb] at this ⊢
+      · rw [mem_sortT] at ht; simp at ht
+        exact a1 t ht.1
+    · intro h hh
+      obtain ⟨b1, _⟩ := b h hh
+      refine ⟨?_, ?_⟩
+      · intro t ht; simp at ht; exact b1 t ht.1
+      · intro it hit
+        simp at hit
+        rcases hit with hit | ⟨t, ht, rfl⟩
+        · have := a5 it hit
+          cases it <;> simp [tcbDead, noTcb] at this ⊢
+        · rw [mem_sortT] at ht; simp at ht
+          intro e; exact absurd e (b1 t ht.1)
+
+theorem invD_init (tbl : List Body) (pref : List Nat) (main : List Act) : InvD (init tbl pref main) := by
+  simp [InvD, init, removedNeverRuns]
+
 end TornadoModel.C38
